@@ -135,6 +135,7 @@ type genOpts struct {
 	childPct int // % chance that a batch carries child ops
 	allocPct int
 	bigKey   bool
+	nilMerge bool // Merge operand "!" makes FullMerge return nil
 }
 
 var baseUniverse = [][]byte{
@@ -183,7 +184,7 @@ func (g *gen) ops(max int) []bop {
 			out = append(out, bop{'d', k, nil})
 		case 2:
 			v := g.value()
-			if g.r.chance(1, 12) {
+			if g.o.nilMerge && g.r.chance(1, 8) {
 				v = []byte("!")
 			}
 			out = append(out, bop{'m', k, v})
@@ -267,6 +268,18 @@ func (cr *collRun) obs() sx {
 		sn = append(sn, L(hs.id, readsSx(hs.ss, cr.g.universe, 0)))
 	}
 	out = append(out, sn)
+	if h.mapLL != nil {
+		lm := []sx{"llmap"}
+		for _, e := range h.mapLL.published.kvs {
+			lm = append(lm, L(e.k, e.v))
+		}
+		out = append(out, lm)
+		ms := []sx{"mapstore"}
+		for _, e := range h.mapLL.cur.kvs {
+			ms = append(ms, L(e.k, e.v))
+		}
+		out = append(out, ms)
+	}
 	if h.store != nil {
 		fs, err := h.store.Snapshot()
 		if err == nil && fs != nil {
@@ -409,13 +422,14 @@ func runCollCase(w *bufio.Writer, id int, seed uint64, cfg Config, nLabels int, 
 		case 2:
 			switch pAt {
 			case "persister:begin":
+				before := h.storeCounters()
 				h.releaseActor("persister")
 				if err := h.quiesce(); err != nil {
 					return fail(err)
 				}
 				if h.parkedAt("persister") == "persister:publish" {
 					cr.hist["pbegin"]++
-					cr.step(L("pbegin"))
+					cr.step(L("pbegin", h.persistChoice(before)))
 				} else {
 					cr.hist["pfail"]++
 					cr.step(L("pbeginfail"))
@@ -424,6 +438,9 @@ func runCollCase(w *bufio.Writer, id int, seed uint64, cfg Config, nLabels int, 
 				h.releaseActor("persister")
 				if err := h.quiesce(); err != nil {
 					return fail(err)
+				}
+				if h.mapLL != nil {
+					h.mapLL.published = h.mapLL.cur
 				}
 				cr.hist["ppublish"]++
 				cr.step(L("ppublish"))
@@ -458,10 +475,12 @@ func runCollCase(w *bufio.Writer, id int, seed uint64, cfg Config, nLabels int, 
 			cr.hist["snapclose"]++
 			cr.step(L("snapclose", hs.id))
 		case 6:
-			if err := h.closeAll(); err != nil {
+			inflight := h.parkedAt("persister") == "persister:begin"
+			choice, err := h.closeAllObserved(inflight)
+			if err != nil {
 				return fail(err)
 			}
-			cr.emit(L("step", L("close"), L("obs", L("snaps", cr.heldReads()))))
+			cr.emit(L("step", L("close", choice), L("obs", cr.heldReads())))
 			if err := h.open(); err != nil {
 				return fail(err)
 			}
@@ -486,12 +505,25 @@ func runCollCase(w *bufio.Writer, id int, seed uint64, cfg Config, nLabels int, 
 			cr.step(L("notify", "poke"))
 		}
 	}
-	for _, hs := range cr.held {
-		hs.ss.Close()
-	}
-	cr.held = nil
-	if err := h.closeAll(); err != nil {
+	defer func() {
+		for _, hs := range cr.held {
+			hs.ss.Close()
+		}
+	}()
+	inflight := h.parkedAt("persister") == "persister:begin"
+	choice, err := h.closeAllObserved(inflight)
+	if err != nil {
 		return fail(err)
+	}
+	cr.emit(L("step", L("close", choice), L("obs", cr.heldReads())))
+	if cfg.LL == "store" {
+		if err := h.open(); err != nil {
+			return fail(err)
+		}
+		cr.step(L("reopen"))
+		if _, err := h.closeAllObserved(false); err != nil {
+			return fail(err)
+		}
 	}
 	cr.emit(L("end"))
 	return cr.hist, nil
